@@ -124,6 +124,10 @@ def check_handler(chk, db, config):
                           "default assert_handler is not [[noreturn]] ending in a terminating call (last call: %s)" % n)
 
 
+META_EXTRA = 'DIM (linalg: index variables range over an extent the preconditions equate with the indexed dimension).'
+META = (META[0] + " " + META_EXTRA, META[1])
+
+
 def run(chk, tier):
     from ..rules import dims as _DM
     _DM.check(chk, D.load("checks"), ["_linalg/blas"], floor=6)      # DIM: linalg index loops vs the extents the preconditions equate
